@@ -4,7 +4,7 @@ A *case* is a replayable JSON list of rule applications `[rule, args]` executed 
 process by `Driver` (the Hypothesis RuleBasedStateMachine below only chooses the rules):
 
     compile(prog)  generate(seed)  simulate(scene, seed)  fault(scene, seed, site, k, exc)
-    recompile()
+    recompile()  fresh(scene, seed)
 
 `fault` first makes sure a *control* run of (scene, seed) exists (it doubles as the dry run that
 discovers the fault sites and their hit counts), arms exactly one site at its k-th hit with one
@@ -15,8 +15,9 @@ snapshots taken before, a table of pristine globals, and control runs):
  (i)   the canonical dump of every property of every object of every live scene is unchanged;
  (ii)  the veneer globals are pristine, veneer.isActive() is False, the 3D classes are in place;
  (iii) no behavior / monitor / scenario of a scene is running, no dynamic proxy is left;
- (iv)  a fault-free run with seed s equals the control run with seed s (same process, and
-       after `recompile` with a freshly compiled scenario);
+ (iv)  a fault-free run with seed s equals the control run with seed s (same process; after
+       `recompile` with a freshly compiled scenario; `fresh`: the control equals the one
+       computed by a brand-new interpreter process);
  (v)   at every step of every run each overridable property reads the value given by the most
        recently started *running* scenario that overrides it, else its original value
        (reference model in vf.c14_gen.expected_value) -- in particular the old value at the
@@ -52,9 +53,11 @@ ASSUMPTIONS = [
     "injects",
     "which scenarios are running at a step is read from veneer.runningScenarios (C12 judges "
     "when scenarios start and stop; C14 judges what overrides read given that)",
-    "control runs happen in the same process; the first control of a scene precedes every "
-    "fault on that scene (a corruption caused earlier and invisible to invariants (i)-(iii) "
-    "would need the fresh-process comparison, not done here)",
+    "most control runs happen in the same process (the first control of a scene precedes every "
+    "fault on that scene); the `fresh` rule compares a control with a brand-new interpreter "
+    "(quick: about one machine in four; thorough: every machine that reaches the rule)",
+    "runs are process independent for these programs (no requirement mentions two random "
+    "values, the id-ordering defect of C15 is out of reach)",
 ]
 
 PRISTINE = {
@@ -149,7 +152,9 @@ def running_things(scene):
 
 
 def snapshot(scene):
-    return tuple(canon.canon_object(o) for o in scene.objects)
+    """Deep canonical dump of every property of every object, and of the global parameters."""
+    return tuple(canon.canon_object(o) for o in scene.objects) + \
+        (("params", canon.canon(dict(scene.params), 1)),)
 
 
 # ----------------------------------------------------------------------------------------------
@@ -170,6 +175,7 @@ class Driver:
         self.scenes = []  # {"scene", "snap", "seed", "controls": {seed: canon}, "counts": {}}
         self.compiles = 0
         self.recompiles = 0
+        self.freshes = 0
         self.fired = 0
         self.fired_nontrivial = 0
         self.rules = 0
@@ -439,6 +445,35 @@ class Driver:
         self.scenario = fresh
         self.scenes = new
 
+    def r_fresh(self, scene, seed):
+        """(iv), strongest form: the control of (scene, seed) computed in this long-lived
+        process equals the one computed by a brand-new interpreter."""
+        import hashlib
+        import json
+        import subprocess
+        import sys
+
+        ent = self.scenes[scene % len(self.scenes)]
+        ctl = self._control(ent, seed)
+        self.freshes += 1
+        self.out.cls("rule:fresh")
+        if ctl is None:
+            return
+        job = json.dumps({"prog": self.prog, "scene_seed": ent["seed"], "run_seed": seed})
+        r = subprocess.run([sys.executable, "-m", "vf.c14_fresh"], input=job, text=True,
+                           capture_output=True, timeout=300, cwd=core.VERIF)
+        if r.returncode != 0:
+            raise core.HarnessError("fresh-process control crashed:\n" + r.stderr[-1500:])
+        got = json.loads(r.stdout)
+        if got["failures"]:
+            # the same (known) override failures may be seen there too; nothing else may
+            if any(not f.startswith("override:") for f in got["failures"]):
+                raise core.HarnessError(f"fresh-process control failed: {got['failures']}")
+        if got["scene"] != hashlib.sha1(repr(ent["snap"]).encode()).hexdigest():
+            self.out.fail("fresh-process|scene-differs", source=self.src)
+        elif got["digest"] != hashlib.sha1(repr(ctl[0]).encode()).hexdigest():
+            self.out.fail("fresh-process|control-differs", source=self.src)
+
     # -- invariants ----------------------------------------------------------------------------
     def check_invariants(self, after):
         where = after.split(":")[0]
@@ -534,6 +569,13 @@ def make_machine(tier, on_finish, stop_at=None):
         @rule()
         def recompile(self):
             self._do("recompile", {})
+
+        @precondition(lambda self: self.d.scenes and self.d.freshes < 1 and self.d.fired > 0)
+        @rule(scene=st.integers(0, 2), seed=st.integers(0, 2), go=st.integers(0, 3))
+        def fresh(self, scene, seed, go):
+            if tier == "quick" and go != 0:
+                return  # a new interpreter costs seconds: one machine in four
+            self._do("fresh", {"scene": scene, "seed": seed})
 
         def teardown(self):
             if not self.skip:
